@@ -271,6 +271,28 @@ MUTANTS = [
     self.out[node] = defs_out
     defs_in.value.pop(None, None)
 ''', ['scan:C06']),
+    ('c10-no-second-check-under-lock', 'malt/pyct/transpiler.py', '''        # Check again under lock.
+        if self._cache.has(fn, cache_subkey):''', '''        # Check again under lock.
+        if False:''', ['malt.pyct.transpiler.PyToPy.transform_function']),
+    ('c10-published-before-create', 'malt/pyct/transpiler.py', '''          factory.create(
+              nodes, ctx.namer, future_features=ctx.info.future_features)
+          self._cache[fn][cache_subkey] = factory''', '''          self._cache[fn][cache_subkey] = factory
+          factory.create(
+              nodes, ctx.namer, future_features=ctx.info.future_features)''', ['malt.pyct.transpiler.PyToPy.transform_function']),
+    ('c10-transform-outside-lock', 'malt/pyct/transpiler.py', '''    else:
+      with self._cache_lock:
+        # Check again under lock.''', '''    else:
+      if True:
+        # Check again under lock.''', ['malt.pyct.transpiler.PyToPy.transform_function']),
+    ('c09-instantiate-without-kwdefaults', 'malt/pyct/transpiler.py', "        kwdefaults=getattr(fn, '__kwdefaults__', None))",
+     "        kwdefaults=None)", ['malt.pyct.transpiler.PyToPy.transform_function']),
+    ('c10-cache-keyed-without-options', 'malt/pyct/transpiler.py', '          self._cache[fn][cache_subkey] = factory',
+     '          self._cache[fn][None] = factory', ['malt.pyct.transpiler.PyToPy.transform_function']),
+    ('c19-closure-types-replaced', 'malt/pyct/static_analysis/type_inference.py', '        existing_types[k].update(v)',
+     '        existing_types[k] = set(v)', ['malt.pyct.static_analysis.type_inference.Analyzer._update_closure_types']),
+    ('c19-closure-types-new-key-empty', 'malt/pyct/static_analysis/type_inference.py', '''      else:
+        existing_types[k] = set(v)''', '''      else:
+        existing_types[k] = set()''', ['malt.pyct.static_analysis.type_inference.Analyzer._update_closure_types']),
     ('c10-has-ignores-subkey', 'malt/pyct/cache.py', '    return subkey in parent', '    return True',
      ['malt.pyct.cache._TransformedFnCache.has']),
 ]
